@@ -76,7 +76,7 @@ MECH = [
   "key the argument map by lower-cased names (CaseInsensitiveDict) as everywhere else",
   [f'{e}:{k}' for e in ('inline_marked_subroutines', 'InlineTransformation', 'sched:InlineTransformation')
    for k in ('scope:other-unit', 'undeclared:var')] +
-  ['inline_internal_procedures:scope:other-unit', 'inline_internal_procedures:undeclared:var'] +
+  ['sched:pipeline:undeclared:var', 'sched:pipeline:scope:other-unit:inlined-dummy', 'inline_internal_procedures:scope:other-unit', 'inline_internal_procedures:undeclared:var'] +
   [f'{e}:scope:stale-scoped-node' for e in ('inline_internal_procedures', 'InlineTransformation', 'sched:InlineTransformation')]),
  ("PrintStmt.values is not in PrintStmt._traversable: no Loki visitor reaches the symbols of a PRINT statement, so "
   "rescope_symbols() / AttachScopes, SubstituteExpressions and FindVariables skip them, and no transformation handles PrintStmt "
